@@ -16,8 +16,14 @@
 #include "sqlite_env.h"
 
 static int rc_fail(void) { int r = vnd_int(); V_ASSUME(r == SQLITE_ERROR || r == SQLITE_BUSY || r == SQLITE_NOMEM || r == SQLITE_CONSTRAINT || r == SQLITE_FULL || r == SQLITE_IOERR); return r; }
+/* optional refinements a harness may install for particular statements (return -1 / 0 to fall back to the default) */
+int (*senv_step_hook)(sqlite3_stmt *s);
+int (*senv_int_hook)(sqlite3_stmt *s, int col, int *out);
+const void *(*senv_text16_hook)(sqlite3_stmt *s, int col, int *bytes);
 int senv_benign;                 /* when set, every call succeeds (used for the follow-up call of the C05 harnesses) */
-static int may_fail(void) { return senv_benign ? 0 : vnd_bool(); }
+/* failure mode: 0 = every fallible call may fail (symbolic); 1 = exactly the senv_fail_at-th fallible call fails (0 = none) */
+int senv_fail_mode, senv_fail_at, senv_calls;
+static int may_fail(void) { if (senv_benign) return 0; if (senv_fail_mode) return ++senv_calls == senv_fail_at; return vnd_bool(); }
 
 int sqlite3_get_autocommit(sqlite3 *db) { return db->level == 0; }
 /* rows changed by the most recent completed modifying statement.  Refinement (DESIGN.md section 7): every statement whose
@@ -114,33 +120,38 @@ int sqlite3_step(sqlite3_stmt *s) {
     /* SQLITE_STATIC bindings must still be alive now: touch them (a freed buffer is a CBMC / ASan failure) */
     for (i = 1; i < SENV_MAXBIND; i++) if (s->bound[i] && s->dtor[i] == SQLITE_STATIC) { volatile char c = *(const char *) s->bound[i]; (void) c; }
     s->db->steps++;
+    if (s->modifying) s->db->last_mod_stmt = s;
+    if (senv_step_hook && (r = senv_step_hook(s)) >= 0) { if (r == SQLITE_ROW) { s->state = SENV_ROW; s->db->last_row_stmt = s; } else { s->state = SENV_DONE; s->last_rc = r; s->last_rc_hard = (r != SQLITE_DONE); } return r; }
     if (senv_benign) r = s->modifying ? SQLITE_DONE : ((s->rows++ == 0) ? SQLITE_ROW : SQLITE_DONE);
+    else if (senv_fail_mode) r = may_fail() ? rc_fail() : (s->modifying ? SQLITE_DONE : ((s->rows++ == 0) ? SQLITE_ROW : SQLITE_DONE));
     else { r = vnd_int(); V_ASSUME(r == SQLITE_DONE || r == SQLITE_ROW || r == SQLITE_CONSTRAINT || r == SQLITE_BUSY || r == SQLITE_NOMEM || r == SQLITE_ERROR);
            if (s->modifying) V_ASSUME(r != SQLITE_ROW); }
     if (r == SQLITE_ROW) { s->state = SENV_ROW; s->db->last_row_stmt = s; }
     else { s->state = SENV_DONE; s->last_rc = r; s->last_rc_hard = (r != SQLITE_DONE); }
     if (r == SQLITE_DONE && s->modifying) {
-        int ch = (senv_benign || strncmp(s->sql, "insert", 6) == 0) ? 1 : vnd_bool();
+        int ch = (senv_benign || senv_fail_mode || strncmp(s->sql, "insert", 6) == 0) ? 1 : vnd_bool();
         s->db->last_changes = ch;
         if (ch) { if (s->db->level == 0) s->db->committed++; else s->db->frames[s->db->level].dirty++; s->db->mods++; }   /* zero rows changed = no modification */
     }
     return r;
 }
 /* result columns: arbitrary values of the requested type; text = NULL or a short symbolic string owned by the stub */
-static UChar coltext[SENV_MAXCOL][SENV_TEXTLEN + 1]; static int colnull[SENV_MAXCOL];
-int sqlite3_column_int(sqlite3_stmt *s, int c) { int v = vnd_int(); if (s->state != SENV_ROW) s->db->misuse = 1; V_ASSUME(v >= 0 && v <= 5); return v; }
+static UChar coltext[SENV_MAXCOL][SENV_TEXTLEN + 1]; static int colnull[SENV_MAXCOL]; static int hooked, hookbytes;
+int sqlite3_column_int(sqlite3_stmt *s, int c) { int v; if (senv_int_hook && senv_int_hook(s, c, &v)) return v; v = vnd_int(); if (s->state != SENV_ROW) s->db->misuse = 1; V_ASSUME(v >= 0 && v <= 5); return v; }
 sqlite3_int64 sqlite3_column_int64(sqlite3_stmt *s, int c) { sqlite3_int64 v = vnd_ll(); if (s->state != SENV_ROW) s->db->misuse = 1; V_ASSUME(v >= 1 && v <= 1000); return v; }
 const void *sqlite3_column_text16(sqlite3_stmt *s, int c) {
     int i;
+    if (senv_text16_hook) { int nb = -1; const void *t = senv_text16_hook(s, c, &nb); if (nb >= 0) { hookbytes = nb; hooked = 1; return t; } }
+    hooked = 0;
     if (s->state != SENV_ROW) s->db->misuse = 1;
     if (c < 0 || c >= SENV_MAXCOL) { s->db->misuse = 1; return 0; }
-    colnull[c] = senv_benign ? 0 : vnd_bool();
+    colnull[c] = (senv_benign || senv_fail_mode) ? 0 : vnd_bool();
     if (colnull[c]) return 0;
     for (i = 0; i < SENV_TEXTLEN; i++) coltext[c][i] = (UChar) ('a' + i);      /* concrete length; harnesses that care overwrite */
     coltext[c][SENV_TEXTLEN] = 0;
     return coltext[c];
 }
-int sqlite3_column_bytes16(sqlite3_stmt *s, int c) { return (c >= 0 && c < SENV_MAXCOL && !colnull[c]) ? SENV_TEXTLEN * 2 : 0; }
+int sqlite3_column_bytes16(sqlite3_stmt *s, int c) { if (hooked) return hookbytes; return (c >= 0 && c < SENV_MAXCOL && !colnull[c]) ? SENV_TEXTLEN * 2 : 0; }
 const unsigned char *sqlite3_column_text(sqlite3_stmt *s, int c) { return (const unsigned char *) sqlite3_column_text16(s, c); }
 int sqlite3_column_bytes(sqlite3_stmt *s, int c) { return sqlite3_column_bytes16(s, c); }
 const void *sqlite3_column_blob(sqlite3_stmt *s, int c) { return 0; }
